@@ -184,6 +184,10 @@ def nesting(chk, tier):
             'mixed': lambda d: '=' + 'SUM(1,ROUND(' * d + '1' + ',1))' * d,
             'iferror': lambda d: '=' + 'IFERROR(LEFT(' * d + '"ab"' + ',1),"x")' * d,
             'ops': lambda d: '=' + '+'.join('(A1*%d-B1)' % i for i in range(1, 4 * d)),
+            # malformed nesting: the inner part fails, every alternative retries it (without a memo of failures: exponential)
+            'unclosed': lambda d: '=' + '(' * (d + 2) + '1',
+            'unclosed-if': lambda d: '=' + 'IF(A1>0,' * d + '1',
+            'dangling': lambda d: '=' + '(' * d + '1+' + ')' * d,
         }
         for name, mk in shapes.items():
             for d in range(1, depth + 1):
@@ -244,6 +248,10 @@ def file_vs_object(chk, rng):
             rows = [[rng.choice([1, 2.5, 'x', True, None]) for _ in range(3)] for _ in range(3)]
             rows.append(['=A1+1', '=SUM(A1:C3)', '=IF(A1>1,"a","b")'])
             rows.append(['=A4&"z"', '=LEFT("hello",2)', '=ROUND(B4/3,2)'])
+            # ragged rows: openpyxl's read-only rows end at their own last cell; references inside the sheet's width but past a short row read as blank
+            rows.append([7])
+            rows.append([1, 2, 3, 4, 5])
+            rows.append(['=B6+1', '=SUM(A6:E6)', '=C6&"x"', '=COUNT(A6:E7)', '=INDEX(A6:E7,1,4)'])
             sheets = [('Main', rows), ('Other sheet', [['=Main!A1', 5]])]
             try:
                 text, out = realcode.full_translate(sheets, workdir=d)
